@@ -122,7 +122,15 @@ template <> struct Tr<BaseGraph::UndirectedWeightedGraph> {
 
 // The model's per-edge value `v` is: PLAIN -> index into LabelAlpha; MULTI -> the multiplicity;
 // WEIGHTED -> the weight multiplied by 4 (all weights used are multiples of 1/4, so sums are exact).
-inline double weightOf(long v) { return (double)v / 4.0; }
+inline std::string hexd(double d) { // exact, and readable for the dyadic values used here
+    char b[64];
+    if (d == (long)d && d > -1e6 && d < 1e6) snprintf(b, sizeof b, "%ld", (long)d);
+    else if (d * 4 == (long)(d * 4) && d > -1e6 && d < 1e6) snprintf(b, sizeof b, "%.2f", d);
+    else snprintf(b, sizeof b, "%a", d);
+    return b;
+}
+inline double &weightScale() { static double s = 0.25; return s; } // always a power of two
+inline double weightOf(long v) { return (double)v * weightScale(); }
 
 // ------------------------------------------------------------------------------------- model
 struct Ent {
@@ -242,7 +250,7 @@ template <class G> std::string opText(const Op &op) {
         if (T::fam == PLAIN) return "label=" + labelStr(LabelAlpha<typename T::Label>::value(op.v));
         if (T::fam == MULTI) return "multiplicity=" + std::to_string(op.v);
         std::ostringstream w;
-        w << "weight=" << weightOf(op.v);
+        w << "weight=" << hexd(weightOf(op.v));
         return w.str();
     };
     switch (op.k) {
@@ -483,10 +491,10 @@ template <class G> std::string keyOf(const G &g, bool complete) {
                 if (!T::directed && j < i) continue;
                 if (complete) {
                     try {
-                        o << g.getEdgeWeight(i, j, true) << ",";
+                        o << hexd(g.getEdgeWeight(i, j, true)) << ",";
                     } catch (...) { o << "!,"; }
                 } else
-                    o << g.getEdgeWeight(i, j, false) << ",";
+                    o << hexd(g.getEdgeWeight(i, j, false)) << ",";
             }
     }
     return o.str();
@@ -562,6 +570,17 @@ template <class T> std::string matStr(const std::vector<std::vector<T>> &m) {
     std::ostringstream o;
     o << "[";
     for (auto &r : m) o << vecToStr(r);
+    o << "]";
+    return o.str();
+}
+template <> inline std::string matStr<double>(const std::vector<std::vector<double>> &m) {
+    std::ostringstream o;
+    o << "[";
+    for (auto &r : m) {
+        o << "[";
+        for (size_t k = 0; k < r.size(); ++k) o << (k ? "," : "") << hexd(r[k]);
+        o << "]";
+    }
     o << "]";
     return o.str();
 }
@@ -748,8 +767,11 @@ template <class G> void checkState(const G &g, const Model &m, ClauseSink &sink)
         for (auto &p : m.e) total4 += (long)p.second.copies * p.second.v;
         if (!anyMixed)
             guard("totalWeight", "getTotalWeight", [&] {
-                sink.expectTrue("totalWeight", (long double)g.getTotalWeight() == (long double)total4 / 4.0L,
-                                "getTotalWeight(): got " + std::to_string((double)g.getTotalWeight()) + ", expected " + std::to_string(total4 / 4.0));
+                char gb[64], wb[64];
+                snprintf(gb, sizeof gb, "%La", (long double)g.getTotalWeight());
+                snprintf(wb, sizeof wb, "%La", (long double)total4 * (long double)weightScale());
+                sink.expectTrue("totalWeight", (long double)g.getTotalWeight() == (long double)total4 * (long double)weightScale(),
+                                std::string("getTotalWeight(): got ") + gb + ", expected " + wb);
             });
         std::vector<std::vector<double>> W(n, std::vector<double>(n, 0.0));
         bool wmOk = true;
@@ -767,8 +789,8 @@ template <class G> void checkState(const G &g, const Model &m, ClauseSink &sink)
                 ++sink.evaluated;
                 try {
                     double got = g.getEdgeWeight(i, j);
-                    if (!en) sink.fail("weight.get", "getEdgeWeight" + pr + " returned " + std::to_string(got) + " for a pair that is not an edge (expected std::invalid_argument)");
-                    else if (got != weightOf(en->v)) sink.fail("weight.get", "getEdgeWeight" + pr + ": got " + std::to_string(got) + ", expected " + std::to_string(weightOf(en->v)));
+                    if (!en) sink.fail("weight.get", "getEdgeWeight" + pr + " returned " + hexd(got) + " for a pair that is not an edge (expected std::invalid_argument)");
+                    else if (got != weightOf(en->v)) sink.fail("weight.get", "getEdgeWeight" + pr + ": got " + hexd(got) + ", expected " + hexd(weightOf(en->v)));
                 } catch (const std::invalid_argument &) {
                     if (en) sink.fail("weight.get", "getEdgeWeight" + pr + " threw std::invalid_argument for an existing edge");
                 } catch (...) {
@@ -776,7 +798,8 @@ template <class G> void checkState(const G &g, const Model &m, ClauseSink &sink)
                 }
                 guard("weight.nothrow", "getEdgeWeight(.,.,false)", [&] {
                     double want = en ? weightOf(en->v) : 0.0;
-                    sink.expectEq("weight.nothrow", g.getEdgeWeight(i, j, false), want, "getEdgeWeight" + pr + " nothrow");
+                    double got = g.getEdgeWeight(i, j, false);
+                    sink.expectTrue("weight.nothrow", got == want, "getEdgeWeight" + pr + " nothrow: got " + hexd(got) + ", expected " + hexd(want));
                 });
             }
     }
